@@ -15,6 +15,7 @@ from math import nan
 from ..core import import_library
 from ..gen import engines as E
 from ..gen import terms as G
+from ..env import ENVIRONMENTS, Held, excusable, hostile
 from ..probe import Probe, Reach, plain_function
 from ..ref import norms as N
 from ..ref import wiring as W
@@ -241,6 +242,8 @@ def run(ctx):
     ctx.assumptions += ["leaves (membership, hedge, norm) are the library's own (C03/C04/C05)", "bit-exact comparison", "`any` is generated last in its hedge list and never after `not`"]
     funcs = {"Antecedent.load": fl.Antecedent.load, "Antecedent.activation_degree": fl.Antecedent.activation_degree, "Rule.activate_with": fl.Rule.activate_with, "Function.infix_to_postfix": plain_function(fl.Function, "infix_to_postfix")}
     pairs = list(itertools.product(N.TNORMS, N.SNORMS))
+    ctx.excuse = lambda mechanism, observed, note: excusable(observed)
+    held = Held(ctx)
     with Reach(funcs) as reach, Probe() as probe:
         mon = AntecedentMonitor(ctx, fl)
         mon.install(probe)
@@ -312,6 +315,7 @@ def run(ctx):
                     ctx.hit("inconclusive:engine could not be duplicated:" + type(ex).__name__)
                     engine.rule_blocks.clear()
             mon.engines[key] = engine
+            envname = ENVIRONMENTS[(i // 12) % len(ENVIRONMENTS)] if i % 12 == 5 else None
             rows = E.rows(rnd, dict(inputs=spec_inputs), 6)
             for k, row in enumerate(rows):
                 if source is not None:
@@ -331,6 +335,38 @@ def run(ctx):
                 else:
                     for v, x in zip(engine.input_variables, row):
                         v.value = x
+                with hostile(fl, envname, ctx):
+                    try:
+                        rule.activate_with(conj, disj)
+                    except Exception:
+                        pass
+                # the degrees an earlier evaluation handed out stay what they were
+                held.check("a later evaluation of the rule")
+                held.keep("Rule.activation_degree", rule.activation_degree)
+                if k == 3:
+                    # a second batch of the same size straight after the first
+                    arr = np.array(rows[::-1], dtype=float)
+                    for j, v in enumerate(engine.input_variables):
+                        v.value = arr[:, j]
+                    try:
+                        rule.activate_with(conj, disj)
+                    except Exception:
+                        pass
+                    held.check("a second batch of the same size")
+                    held.keep("Rule.activation_degree", rule.activation_degree)
+                    ctx.hit("event:two batches of the same size in a row")
+            held.clear()
+            # the fuzzy output an output-variable proposition reads is emptied in place and filled again with as many activations
+            # as before, of other degrees (what Engine.process does between two steps): the next evaluation reads the new ones
+            live_ov = engine.output_variables[0]
+            if live_ov.fuzzy.terms and rule.is_loaded():
+                olds = list(live_ov.fuzzy.terms)
+                live_ov.fuzzy.terms.clear()
+                for a in olds:
+                    live_ov.fuzzy.terms.append(fl.Activated(a.term, rnd.choice([0.0, 1.0, 0.5, rnd.random()]), a.implication))
+                ctx.hit("event:fuzzy output emptied and refilled in place between two evaluations")
+                for v, x in zip(engine.input_variables, rows[0]):
+                    v.value = x
                 try:
                     rule.activate_with(conj, disj)
                 except Exception:
@@ -365,6 +401,7 @@ def run(ctx):
                 ctx.sample("antecedent", {"text": rule_text, "postfix": E.tree_postfix(tree), "conjunction": tname, "disjunction": sname, "row": rows[0], "degree": rule.activation_degree})
         probe.report(ctx)
         reach.report(ctx)
+    ctx.require("event:two batches of the same size in a row", "event:fuzzy output emptied and refilled in place between two evaluations", "law:values handed out earlier are left alone", *[f"environment:{e}" for e in ENVIRONMENTS])
     ctx.require("hook:Rule.activate_with", "hook:Antecedent.load", "compare:degree (generator tree)", "compare:postfix (generator tree)", "discriminates:swapped precedence", "discriminates:right associativity", "discriminates:hedge order", "piece:any", "piece:disabled variable", "piece:output variable proposition", "piece:weight", "shape:mixes and/or", "event:rule object reused for another text", "event:a loaded rule is given a text that is rejected", "shape:chain of more than 32 operands", "event:loaded rule given another text and loaded again through its rule block", "event:fuzzy output holds an activation of an equal-named copy of a term", "event:hedges of a loaded proposition edited in place after an evaluation", "route:rule of a duplicated engine (copy)", "route:rule of a duplicated engine (deepcopy)", "route:rule of a duplicated engine (fll)", "input:2-D block of values per variable")
 
 
